@@ -3,7 +3,7 @@
 Usage: tools/seed_report.py [extra-property-per-seed json]   -> seeded/RESULTS.json, seeded/RESULTS.md"""
 import json, os, subprocess, glob, re, sys
 ROOT = os.path.dirname(os.path.dirname(os.path.abspath(__file__)))
-EXTRA = {"C04-B": ["C20"], "C20-B": ["C09"], "C01-A": ["C03"], "C03-B": ["C01"], "C01-F": ["C02"], "C01-E": ["C04"], "C15-E": ["C01"]}
+EXTRA = {"C04-B": ["C20"], "C20-B": ["C09"], "C01-A": ["C03"], "C03-B": ["C01"], "C01-F": ["C02"], "C01-E": ["C04"], "C15-E": ["C01"], "C10-D": ["C09"], "C02-D": ["C03"], "C19-F": ["C02"]}
 ONLY = set(sys.argv[1:])          # optional: seed names to (re)run; the other rows are kept from the last report
 res = {}
 if ONLY and os.path.exists(os.path.join(ROOT, "seeded", "RESULTS.json")):
